@@ -584,14 +584,7 @@ func keys(mp map[int]bool) []int {
 	return out
 }
 
-func parallel(n int, fn func(w int)) {
-	var wg sync.WaitGroup
-	for w := 0; w < n; w++ {
-		wg.Add(1)
-		go func(w int) { defer wg.Done(); fn(w) }(w)
-	}
-	wg.Wait()
-}
+func parallel(n int, fn func(w int)) { core.Parallel(n, fn) }
 
 func genPlans(r *rand.Rand, quick bool) []plan {
 	var ps []plan
